@@ -433,6 +433,9 @@ def run(check, an: Analysis):
     from ..report import SubCheck
     from . import c18
     c18._check_run_payload(SubCheck(check, 'Q', 'Process'), an)
+    # the victim learns of its eviction when it is resumed next: a pending interrupt wins
+    # over whatever else ended its wait (rule shared with C18)
+    c18.check_interrupt_wins(check, an, 'Q')
     pre_cls = an.method('usim.py.resources.resource.Preempted', '__init__')
     args = [a.arg for a in pre_cls.node.args.args[1:]]
     check.instance('Q', 'Preempted', args == ['by', 'usage_since', 'resource'],
